@@ -480,25 +480,40 @@ def f13_stream_state(ctx, L):
         t = nows(f.body.text)
         sticky = []
         if re.search(r'std::hex|std::oct|\bhex\b', t):
-            sticky.append(('std::hex', r'std::dec|\.flags\(|\.setf\(|\.copyfmt\('))
+            sticky.append(('std::hex', r'std::dec|\.flags\((?!\))|\.setf\(|\.copyfmt\('))
         if re.search(r'\.fill\(', t):
             sticky.append(('fill()', r'\.fill\((?!\'0\'\))[^)]+\)|\.copyfmt\('))
         if re.search(r'std::setfill', t):
             sticky.append(('std::setfill', r'std::setfill\(\' \'\)|\.fill\(|\.copyfmt\('))
         if re.search(r'\.precision\(|std::setprecision|std::showbase|std::uppercase|std::boolalpha', t):
-            sticky.append(('format flag', r'\.flags\(|\.copyfmt\('))
+            sticky.append(('format flag', r'\.flags\((?!\))|\.copyfmt\('))
         for what, restore in sticky:
             first = re.search(re.escape(what).replace('fill\\(\\)', r'\.fill\(') if what != 'fill()' else r'\.fill\(', t)
             pos = first.start() if first else 0
             tail = t[pos + 1:]
             restored = re.search(restore, tail) is not None
             # a restore must be reached on every exit: no `return` between the manipulator and the restore
+            why = ''
             if restored:
                 r = re.search(restore, tail)
                 restored = 'return' not in tail[:r.start()]
+                # a restore from a snapshot only restores what the snapshot held: `NAME = out.flags()` / `NAME = out.fill(..)` /
+                # `NAME.copyfmt(out)` has to be taken before the first sticky manipulator, or the "restore" re-installs it
+                m = re.match(r'\.(flags|fill)\((\w+)\)', tail[r.start():])
+                if restored and m and not re.fullmatch(r'\d+', m.group(2)):
+                    snap = re.search(r'%s=\w+\.%s\(' % (re.escape(m.group(2)), m.group(1)), t)
+                    if snap is not None and snap.start() > pos:
+                        restored = False
+                        why = ' (the snapshot `%s` restored from is taken after %s was applied, so it re-installs it)' % (m.group(2), what)
+                m = re.match(r'\.copyfmt\((\w+)\)', tail[r.start():])
+                if restored and m:
+                    snap = re.search(r'%s\.copyfmt\(' % re.escape(m.group(1)), t)
+                    if snap is not None and snap.start() > pos:
+                        restored = False
+                        why = ' (the saved format `%s` is copied after %s was applied)' % (m.group(1), what)
             L.check(restored, 'F13.stream-state-restored', '%s|%s' % (f.key(), what), f.site(),
                     'sticky stream state %s is set and never restored: every later integer printed to the same stream is '
-                    'affected (e.g. prints in hexadecimal)' % what, f.body.text[-160:])
+                    'affected (e.g. prints in hexadecimal)%s' % (what, why), f.body.text[-160:])
         if not sticky:
             L.ok('F13.stream-state-restored', f.key(), f.site(), 'no sticky manipulator')
     L.floor('F13.stream-state-restored', n, 12)
